@@ -241,6 +241,25 @@ class Body:
             return ("unknown",)
         return self.place_origin(p, depth)
 
+    def origins(self, operand, depth=0):
+        """like origin(), but a multiply-assigned local is expanded into the list of
+        origins of all its definitions (one level of reaching definitions)"""
+        o = self.origin(operand)
+        if o and o[0] == "local" and not o[2] and depth < 4:
+            out = []
+            for bb, idx, kind, node in self.defs.get(o[1], []):
+                if node.get("lhs", node.get("dest", {})).get("p"):
+                    continue
+                if kind == "call":
+                    callee, cinfo = callee_of(node)
+                    out.append(("call", callee, [self.origin(a) for a in node["args"]], bb, cinfo))
+                elif node["rv"]["k"] == "use":
+                    out.extend(self.origins(node["rv"]["op"], depth + 1))
+                else:
+                    out.append(("rv", node["rv"]["k"]))
+            return out or [o]
+        return [o]
+
     def place_origin(self, p, depth=0):
         l = p["l"]
         proj = p.get("p", [])
